@@ -107,6 +107,7 @@ func (t *template) layout(ctx context.Context, w io.Writer) error {
 	maxDepth := 100
 	depth := 0
 	var inheritedSlotScope *SlotScope // Slots defined in child templates (as DOM nodes)
+	visited := map[string]bool{}      // files already rendered in this chain
 
 	// Build layout chain and render intermediate templates
 	for {
@@ -114,6 +115,15 @@ func (t *template) layout(ctx context.Context, w io.Writer) error {
 			return fmt.Errorf("layout chain depth exceeded maximum of %d, possible circular dependency", maxDepth)
 		}
 		depth++
+
+		// The next file of the chain is determined by the current file alone, so a file that
+		// comes up twice means the chain is circular. Fail now: every lap is a complete render
+		// with the previous output as content, and a layout that places the content twice
+		// doubles the document per lap, long before the depth limit is reached.
+		if visited[filename] {
+			return fmt.Errorf("layout chain depth exceeded maximum of %d, circular dependency: %s is used twice", maxDepth, filename)
+		}
+		visited[filename] = true
 
 		// Create a fresh buffer for each iteration
 		buf := new(bytes.Buffer)
